@@ -266,10 +266,12 @@ pub(crate) fn from_container_unit(
     // Only allow mixed or control-group, as nothing else works well
     let kill_mode = service.lookup_last(SERVICE_SECTION, "KillMode");
     match kill_mode.as_deref() {
-        None | Some("mixed") | Some("control-group") => {
+        None => {
             // We default to mixed instead of control-group, because it lets conmon do its thing
             service.set(SERVICE_SECTION, "KillMode", "mixed");
         }
+        // keep the user's (permitted) choice
+        Some("mixed") | Some("control-group") => {}
         Some(kill_mode) => {
             return Err(ConversionError::InvalidKillMode(kill_mode.into()));
         }
@@ -749,12 +751,14 @@ pub(crate) fn from_kube_unit(
     let yaml_path = PathBuf::from(yaml_path).absolute_from_unit(kube);
 
     // Only allow mixed or control-group, as nothing else works well
-    let kill_mode = kube.lookup_last(KUBE_SECTION, "KillMode");
+    let kill_mode = service.lookup_last(SERVICE_SECTION, "KillMode");
     match kill_mode.as_deref() {
-        None | Some("mixed") | Some("control-group") => {
+        None => {
             // We default to mixed instead of control-group, because it lets conmon do its thing
             service.set(SERVICE_SECTION, "KillMode", "mixed");
         }
+        // keep the user's (permitted) choice
+        Some("mixed") | Some("control-group") => {}
         Some(kill_mode) => {
             return Err(ConversionError::InvalidKillMode(kill_mode.into()));
         }
